@@ -84,7 +84,7 @@ func (l *vxLin) op() {
 		vxAssert(vxAgentErrClass(l.a.Stop(id)) == want, "overlap: Stop returns what the serial order of critical sections gives")
 		vxReach("stop")
 	case 2:
-		m := &Message{TransactionID: id}
+		m := &Message{TransactionID: id, Type: vxAnyType()}
 		if !l.closed {
 			l.present[j] = false
 			l.exp = append(l.exp, vxExp{id: id, msg: m})
